@@ -11259,3 +11259,130 @@ func ruleStateCounterIsWide(c *core.Ctx) {
 		c.Undecided(rule, "anchor/state_ declaration", 0, "no printed declaration of state_ found in cpp/protocols")
 	}
 }
+
+// ruleResolvedDefinitionSwitchesResolveAliases (AL2): `t.ResolvedDefinition` of a *SimpleType is the definition the
+// name refers to — for `MyInt: int` a *NamedType, not the primitive. A back-end switch over it that singles out
+// dsl.PrimitiveDefinition and ABORTS for what it does not know needs `case *dsl.NamedType`, or a subject that went
+// through GetUnderlyingType first (fix 3bae236: `y: x as MyInt` made the Python generator panic "Unsupported type").
+func ruleResolvedDefinitionSwitchesResolveAliases(c *core.Ctx) {
+	const rule = "AL2"
+	c.Rule(rule, "back ends: a type switch over `x.ResolvedDefinition` with a case for dsl.PrimitiveDefinition, no case for *dsl.NamedType and an abort for unmatched definitions switches over a type that was resolved with GetUnderlyingType / GetPrimitiveType first", 1)
+	n := 0
+	for _, d := range c.AllDecls() {
+		p := c.DeclPkg(d)
+		if p == nil || d.Body == nil || c.IsTestFile(d.Pos()) || !strings.Contains(p.PkgPath, "/internal/") || strings.HasSuffix(p.PkgPath, "/internal/cmd") {
+			continue
+		}
+		info := p.TypesInfo
+		k := 0
+		ast.Inspect(d.Body, func(nn ast.Node) bool {
+			ts, ok := nn.(*ast.TypeSwitchStmt)
+			if !ok {
+				return true
+			}
+			ti := parseTypeSwitch(info, ts)
+			se, ok := ast.Unparen(ti.subject).(*ast.SelectorExpr)
+			if !ok || se.Sel.Name != "ResolvedDefinition" {
+				return true
+			}
+			hasPrim, hasNamed := false, false
+			for _, cs := range ti.cases {
+				for _, t := range cs.types {
+					if t == nil {
+						continue
+					}
+					switch typeLabel(t) {
+					case "PrimitiveDefinition":
+						hasPrim = true
+					case "*NamedType":
+						hasNamed = true
+					}
+				}
+			}
+			if !hasPrim {
+				return true
+			}
+			// does an unmatched definition abort? an aborting default, or an abort right after the switch / at the
+			// end of the enclosing switch's function
+			aborts := false
+			if ti.hasDefault {
+				for _, s := range ti.defaultBody {
+					if es, ok := s.(*ast.ExprStmt); ok {
+						if ce, ok := es.X.(*ast.CallExpr); ok && core.NoReturn(info, ce) {
+							aborts = true
+						}
+					}
+				}
+			} else if len(d.Body.List) > 0 {
+				if es, ok := d.Body.List[len(d.Body.List)-1].(*ast.ExprStmt); ok {
+					if ce, ok := es.X.(*ast.CallExpr); ok && core.NoReturn(info, ce) {
+						aborts = true
+					}
+				}
+			}
+			if !aborts {
+				return true
+			}
+			n++
+			k++
+			key := fmt.Sprintf("%s/switch %s.(type)#%d", c.FuncName(d), types.ExprString(ti.subject), k)
+			// the SimpleType whose definition is read: was it resolved?
+			resolved := false
+			var from func(e ast.Expr, depth int) bool
+			from = func(e ast.Expr, depth int) bool {
+				e = ast.Unparen(e)
+				switch x := e.(type) {
+				case *ast.CallExpr:
+					if f := core.Callee(info, x); f != nil && (f.Name() == "GetUnderlyingType" || f.Name() == "GetPrimitiveType" || f.Name() == "ToGeneralizedType") {
+						return f.Name() != "ToGeneralizedType" || (len(x.Args) == 1 && from(x.Args[0], depth+1))
+					}
+				case *ast.TypeAssertExpr:
+					return from(x.X, depth+1)
+				case *ast.Ident:
+					if depth < 4 {
+						// bound by an enclosing type switch `switch t := <subject>.(type)`: follow the subject
+						found := false
+						ast.Inspect(d.Body, func(m ast.Node) bool {
+							if ots, ok := m.(*ast.TypeSwitchStmt); ok && ots.Pos() < x.Pos() && x.End() <= ots.End() {
+								oti := parseTypeSwitch(info, ots)
+								for _, cl := range ots.Body.List {
+									if o := info.Implicits[cl]; o != nil && o == info.ObjectOf(x) && from(oti.subject, depth+1) {
+										found = true
+									}
+								}
+							}
+							return true
+						})
+						if found {
+							return true
+						}
+						if r := singleDefRHS(info, d.Body, x); r != ast.Expr(x) {
+							return from(r, depth+1)
+						}
+					}
+				case *ast.SelectorExpr, *ast.IndexExpr:
+					// cases[0].Type of a generalized type that came from a resolved type
+					var base ast.Expr
+					if s2, ok := x.(*ast.SelectorExpr); ok {
+						base = s2.X
+					} else {
+						base = x.(*ast.IndexExpr).X
+					}
+					return from(base, depth+1)
+				}
+				return false
+			}
+			resolved = from(se.X, 0)
+			if r, ok := auditedAliasDefaults[c.FuncName(d)]; ok && !hasNamed && !resolved {
+				c.OK(rule, key, ts.Pos(), "audited: "+r)
+				return true
+			}
+			c.Check(hasNamed || resolved, rule, key, ts.Pos(), "aliases are resolved before (or have a case of their own)",
+				"the definition behind a *SimpleType is switched over with a case for primitives, no case for *dsl.NamedType and an abort for everything else, and the type was not resolved with GetUnderlyingType first: an alias of a primitive (`MyInt: int`) reaches the abort and the generator crashes on an accepted package")
+			return true
+		})
+	}
+	if n == 0 {
+		c.Undecided(rule, "anchor/switches over ResolvedDefinition", 0, "none with a primitive case and an abort found in the back ends")
+	}
+}
